@@ -1,6 +1,9 @@
 import DracoProofs.EbBasic
 import DracoProofs.EbEncCoders
 import DracoProofs.EbEncPredict
+import DracoProofs.EbLayer
+import DracoProofs.EbIntSqrt
+import DracoProofs.EbCTIso
 /-
   C01 (staging) — facts about the Edgebreaker mesh decoder model (DracoModel/Eb*.lean).
   The model is tied to the real decoder by the correspondence of C01 (tools/props/ebcases.py);
@@ -16,7 +19,7 @@ import DracoProofs.EbEncPredict
   * corner arithmetic used by every table operation (`Next`/`Previous` are mutually inverse,
     stay inside the face, `Next³ = id`).
   * the standard traversal decoder yields only the five topology symbols, ≤ 3 bits each.
-  * `IntSqrt` is the floor square root on an initial segment (n < 200) (by evaluation).
+  * `IntSqrt` is the floor square root of every 64-bit argument (`intSqrt_floor`).
 -/
 namespace Draco.C01Eb
 open Draco Draco.Eb
@@ -73,6 +76,11 @@ set_option maxRecDepth 20000 in
 theorem intSqrt_floor_small : ∀ n < 200, intSqrt n ^ 2 ≤ n ∧ n < (intSqrt n + 1) ^ 2 := by
   decide
 
+/-- `IntSqrt` (the integer Newton iteration of the tex-coords predictor) is the floor square root of every
+    `uint64_t` argument -/
+theorem intSqrt_floor (n : Nat) (h : n < 2 ^ 64) : intSqrt n ^ 2 ≤ n ∧ n < (intSqrt n + 1) ^ 2 :=
+  intSqrt_correct n h
+
 example : intSqrt 1000000 = 1000 ∧ intSqrt 999999 = 999 ∧ intSqrt (2 ^ 64 - 1) = 2 ^ 32 - 1 := by
   decide
 
@@ -87,17 +95,23 @@ example : intSqrt 1000000 = 1000 ∧ intSqrt 999999 = 999 ∧ intSqrt (2 ^ 64 - 
   (a) the side coders of the connectivity: standard traversal symbols, every `RAnsBitEncoder` buffer (start
       faces, attribute seams, normal flips, tex-coord orientations, crease flags), the topology split event
       table, one valence context;
-  (b) toward `eb_roundtrip_conditional` (IF CTIso THEN the decoded geometry satisfies RoundTripOK): the
-      prediction layer — on the SAME mesh data the decoder loops invert the encoder loops for delta coding
-      (wrap transform), delta coding of normals (canonicalized octahedron transform) and PARALLELOGRAM
-      prediction, whenever the encoder loop succeeds.  Missing for the full implication (all evaluated per case,
-      none proved): `seams_correspond` (the seam bits decoded along the decoder's face order mark the images of
-      the encoder's seam edges), `traversal_equivariant` (the depth-first / prediction-degree traversals of two
-      CTIso tables started from corresponding corners visit corresponding corners, so that the mesh data of
-      both sides correspond), the inverses of the constrained multi-parallelogram and tex-coord
-      schemes (`constrained_multi_roundtrip`, `tex_coords_roundtrip`),
-      `assign_points_correspond` (the decoder's point ids realise the encoder's corner → attribute value
-      relation) and the step from there to `Spec.checkCore`.
+  (b) toward `eb_roundtrip_conditional` (IF CTIso THEN the decoded geometry satisfies RoundTripOK):
+      * the prediction layer on the SAME mesh data — the decoder loops invert the encoder loops for delta coding
+        (wrap transform), delta coding of normals (canonicalized octahedron transform), PARALLELOGRAM,
+        CONSTRAINED MULTI-PARALLELOGRAM (every choice of crease flags), TEX-COORDS PORTABLE (`IntSqrt` correct
+        for every 64-bit argument: `intSqrt_floor`) and GEOMETRIC NORMAL prediction, whenever the encoder loop
+        succeeds;
+      * `eb_prediction_layer_roundtrip`: the whole attribute value block (scheme bytes, symbol / raw coded
+        corrections, crease / orientation / flip bit buffers, wrap / octahedron transform data) of every scheme
+        is read back by `decodeIntegerValuesEb`, which consumes exactly the block;
+      * `eb_ctiso_sound`: the Boolean `ctIso` the op evaluates implies the Prop-level isomorphism `CTIso`.
+      Missing for the full implication (evaluated per case — `rt-ok`, `iso-ok`, `hyp-ok` —, not proved):
+      `seams_correspond` (the seam bits decoded along the decoder's face order mark the images of the encoder's
+      seam edges), `traversal_equivariant` (the depth-first / prediction-degree traversals of two CTIso tables
+      started from corresponding corners visit corresponding corners, so that the `MeshData` of both sides
+      correspond and the predictions, which are equivariant, agree), `assign_points_correspond` (the decoder's
+      point ids realise the encoder's corner → attribute value relation) and the step from there to
+      `Spec.checkCore`.
   (c) `eb_encoded_counts_partial`: under CTIso the decoder's face count is the number of faces the encoder
       processed; that this is `num_faces − NumDegeneratedFaces` (what the encoder reports) and the statement
       about points are evaluated (`counts-ok`), not proved.
@@ -292,6 +306,149 @@ example : ∃ fd k, geometricNormalDecode exTriangle exPositions exOcta (Leaf.oc
   obtain ⟨k, hk⟩ := eb_prediction_geometric_normal_roundtrip exTriangle exPositions 4 exOcta (by decide) #[7, 7, 3, 5, 10, 4] 3 rfl rfl
     (by decide) _ _ exNormalEnc d hy
   exact ⟨d, k, hk⟩
+
+
+open Draco.EbEnc in
+/-- (b) **constrained multi-parallelogram prediction**: for every choice of crease flags the encoder may take
+    (`crease`: what the entropy tracker decided), whenever the encoder loop succeeds the decoder loop — given the
+    encoder's corrections and the encoder's flags in stream order (`creaseStreamOrder`, what
+    `encodeCreaseFlags` writes: `encodeCreaseFlags_eq`) — returns the values -/
+theorem eb_prediction_constrained_multi_roundtrip (md : MeshData) (wt : WrapT) (lo hi : Int) (nc n : Nat)
+    (crease : Array (Array Bool)) (data corr : Array Int) (isCrease : Array (Array Bool))
+    (hnc : 0 < nc) (hn : 0 < n) (hd : md.d2c.size = n) (hsz : data.size = n * nc)
+    (hinit : Wrap.init lo hi = some wt) (hlo : -2 ^ 31 ≤ lo) (hhi : hi < 2 ^ 31)
+    (hrange : ∀ i (h : i < data.size), lo ≤ data[i] ∧ data[i] ≤ hi)
+    (henc : constrainedMultiEncode md wt nc crease data = .ok (corr, isCrease)) :
+    ∃ maxPar, constrainedMultiDecode md wt nc (creaseStreamOrder isCrease) corr = .ok (data, maxPar) :=
+  constrained_multi_roundtrip md wt lo hi nc n crease data corr isCrease hnc hn hd hsz hinit hlo hhi hrange henc
+
+open Draco.EbEnc in
+/-- non-vacuity: on `exMesh` with the choice "use the parallelogram of the last entry" (run `exCMEnc`) -/
+example : ∃ maxPar, constrainedMultiDecode exMeshCM ⟨0, 20, 21, 10, -10⟩ 1
+    (creaseStreamOrder #[#[false], #[], #[], #[]]) #[3, 4, 5, -5] = .ok (#[3, 7, 12, 16], maxPar) :=
+  eb_prediction_constrained_multi_roundtrip exMeshCM ⟨0, 20, 21, 10, -10⟩ 0 20 1 4 #[#[false], #[], #[], #[]]
+    #[3, 7, 12, 16] _ _ (by decide) (by decide) (by decide) (by decide) (by decide) (by decide) (by decide) (by decide)
+    exCMEnc
+
+open Draco.EbEnc in
+/-- (b) **tex-coords (portable) prediction**: whenever the encoder loop succeeds, the decoder loop — given the
+    encoder's corrections and orientation flags — returns the values.  (Both sides compute the same integer
+    predictor, `IntSqrt` included; the encoder picks the orientation, the decoder follows the flag.) -/
+theorem eb_prediction_tex_coords_roundtrip (md : MeshData) (ps : PosSource) (wt : WrapT) (lo hi : Int) (n : Nat)
+    (data : Array Int) (hd : md.d2c.size = n) (hsz : data.size = n * 2)
+    (hinit : Wrap.init lo hi = some wt) (hlo : -2 ^ 31 ≤ lo) (hhi : hi < 2 ^ 31)
+    (hrange : ∀ i (h : i < data.size), lo ≤ data[i] ∧ data[i] ≤ hi)
+    (corr : Array Int) (orient : Array Bool) (henc : texCoordsEncode md ps wt 2 data = .ok (corr, orient)) :
+    ∃ used, texCoordsDecode md ps wt 2 orient corr = .ok (data, used) :=
+  tex_coords_roundtrip md ps wt lo hi n data hd hsz hinit hlo hhi hrange corr orient henc
+
+open Draco.EbEnc in
+set_option maxRecDepth 16000 in
+/-- the triangle of `exTriangle` with uv coordinates (0,0), (8,0), (1,7): the third entry is predicted from the
+    positions (`IntSqrt 256`), orientation flag `false` -/
+theorem exTexEnc : texCoordsEncode exTriangle exPositions ⟨0, 8, 9, 4, -4⟩ 2 #[0, 0, 8, 0, 1, 7] =
+    .ok (#[0, 0, -1, 0, -3, 3], #[false]) := by
+  simp [texCoordsEncode, texPredictEnc, exTriangle, exPositions, PosSource.get, TView.vertex,
+    corrWrap, rd, rdI, wrI, inv, Eb.nextC, Eb.prevC, dot3, i64,
+    Std.Legacy.Range.forIn_eq_forIn_range', Std.Legacy.Range.size, bind, Except.bind, pure, Except.pure, wrap32,
+    List.range'_succ, Wrap.encCorr, Wrap.clamp, Eb.iabs, (by decide : intSqrt 256 = 16)]
+  decide
+
+open Draco.EbEnc in
+/-- non-vacuity -/
+example : ∃ used, texCoordsDecode exTriangle exPositions ⟨0, 8, 9, 4, -4⟩ 2 #[false] #[0, 0, -1, 0, -3, 3] =
+    .ok (#[0, 0, 8, 0, 1, 7], used) :=
+  eb_prediction_tex_coords_roundtrip exTriangle exPositions ⟨0, 8, 9, 4, -4⟩ 0 8 3 #[0, 0, 8, 0, 1, 7] rfl rfl
+    (by decide) (by decide) (by decide) (by decide) _ _ exTexEnc
+
+open Draco.EbEnc in
+/-- (b) **the attribute value block of an Edgebreaker stream** (`SequentialIntegerAttributeEncoder::EncodeValues`
+    with a mesh prediction scheme → `SequentialIntegerAttributeDecoder::DecodeValues`, bitstream 2.2): for EVERY
+    scheme the encoder can select — none, difference, parallelogram, constrained multi-parallelogram, tex-coords
+    portable with the wrap transform; difference and geometric normal with the canonicalized octahedron
+    transform — and whatever choices it takes (entropy coder, crease flags, `zero_prob`), the decoder, given the
+    same `MeshData` and the same parent attribute, reads the scheme bytes, the coded corrections (C08), the
+    prediction data (bit buffers, transform data: C16) back, returns the portable values and stops exactly
+    behind the block.  Hypotheses (each evaluated on every generated case by the op `ebenc`, `hyp-ok`):
+    `hk` — the (encoder kind, scheme) pairs `createScheme` produces; `hpar` — the decoder's parent attribute is
+    the encoder's; `hr` — portable values are int32; `hk3` — normals are canonical grid points with valid
+    quantization bits; `hd`/`hcorners`/`hF` — one entry per data id, not more entries than corners, corner
+    count below 2³¹; `hcrease` — (constrained multi-parallelogram) the decoder's `num_flags ≤ num_corners` check passes on the
+    encoder's flags. -/
+theorem eb_prediction_layer_roundtrip (ch : EbChoices) (o : SeqEnc.EncOpts) (attId kind nc numValues n attComponents : Nat)
+    (scheme : PScheme) (md : MeshData) (pointIds : Array Nat) (parentE : Option ParentAtt) (parentD : Option Parent)
+    (portable : Array Int) (sch' : PScheme) (bs : Bytes)
+    (hnv : numValues ≠ 0) (hk : SchemeKindOK kind scheme) (hpar : ParentAgree parentE parentD)
+    (hnc : 0 < nc) (hn : 0 < n) (hlen : portable.size = n * nc) (hd : md.d2c.size = n) (h32 : n * nc < 2 ^ 32)
+    (hr : ∀ x ∈ portable.toList, -2 ^ 31 ≤ x ∧ x < 2 ^ 31)
+    (hk3 : kind = 3 → NormalsOK o attId nc n portable)
+    (hF : 3 * md.t.numFaces + 3 < 2 ^ 31) (hcorners : n ≤ 3 * md.t.numFaces)
+    (hcrease : scheme = .constrainedMulti → CreaseCountOK ch attId nc md portable)
+    (henc : encodeIntegerValuesEb ch o attId kind nc numValues scheme md pointIds parentE portable = .ok (sch', bs))
+    (s : DSt) (extra : Bytes) (hs : s.rest = bs ++ extra) (hsv : s.version = 514) :
+    ∃ s', decodeIntegerValuesEb kind n nc attComponents md pointIds parentD s =
+      (some (portable, TransformData.none), s') ∧ s'.rest = extra :=
+  let ⟨s', h1, h2, _⟩ := (runs_encodeIntegerValuesEb ch o attId kind nc numValues n attComponents scheme md pointIds
+    parentE parentD portable sch' bs hnv hk hpar hnc hn hlen hd h32 hr hk3 hF hcorners hcrease henc).2.run s extra hs hsv
+  ⟨s', h1, h2⟩
+
+open Draco.EbEnc in
+def exCh : EbChoices :=
+  ⟨⟨fun n0 tot => (512 * n0 + tot) / (2 * tot), ProbOracle.exact, fun _ => .tagged⟩, fun _ => .tagged, fun _ => #[]⟩
+open Draco.EbEnc in
+/-- the position attribute of `exTriangle` as the encoder (portable attribute) and the decoder hold it -/
+def exParentE : ParentAtt := ⟨1, 3, 9, #[0, 1, 2], #[0, 0, 0, 4, 0, 0, 0, 4, 0]⟩
+def exParentD : Parent := ⟨3, #[0, 1, 2], #[0, 0, 0, 4, 0, 0, 0, 4, 0], true, #[], false⟩
+
+open Draco.EbEnc in
+set_option maxRecDepth 16000 in
+/-- the value block of the uv attribute of `exTexEnc` (tex-coords prediction, raw value bytes) -/
+theorem exTexBlock : encodeIntegerValuesEb exCh ({ builtin := false } : SeqEnc.EncOpts) 0 1 2 3 .texCoords exTriangle #[1, 2, 0]
+    (some exParentE) #[0, 0, 8, 0, 1, 7] =
+    .ok (.texCoords, [5, 1, 0, 1, 0, 0, 1, 0, 5, 6, 1, 0, 0, 0, 255, 1, 17, 0, 0, 0, 0, 8, 0, 0, 0]) := by
+  have h1 : effectiveScheme .texCoords #[0, 0, 8, 0, 1, 7] = .texCoords := by rfl
+  have h2 : encParentSource .texCoords #[1, 2, 0] (some exParentE) = .ok exPositions := by rfl
+  have h3 : wrapInitOf #[0, 0, 8, 0, 1, 7] = some ⟨0, 8, 9, 4, -4⟩ := by decide
+  unfold encodeIntegerValuesEb encodeSchemeBlock
+  simp only [h1, h2, h3, exTexEnc, bind, Except.bind, pure, Except.pure]
+  rfl
+
+open Draco.EbEnc in
+/-- non-vacuity: the decoder reads the 25 bytes of `exTexBlock` (method 5, wrap transform, raw corrections, one
+    orientation bit in a rANS buffer, wrap bounds) back as the uv values, whatever follows (`[9]`) -/
+example : ∃ s', decodeIntegerValuesEb 1 3 2 2 exTriangle #[1, 2, 0] (some exParentD)
+      { rest := [5, 1, 0, 1, 0, 0, 1, 0, 5, 6, 1, 0, 0, 0, 255, 1, 17, 0, 0, 0, 0, 8, 0, 0, 0] ++ [9], version := 514 } =
+      (some (#[0, 0, 8, 0, 1, 7], TransformData.none), s') ∧ s'.rest = [9] :=
+  eb_prediction_layer_roundtrip exCh ({ builtin := false } : SeqEnc.EncOpts) 0 1 2 3 3 2 .texCoords exTriangle #[1, 2, 0] (some exParentE)
+    (some exParentD) #[0, 0, 8, 0, 1, 7] _ _ (by decide) (by simp [SchemeKindOK])
+    (fun p hp => ⟨exParentD, rfl, by cases hp; rfl, rfl, by cases hp; rfl, by cases hp; rfl⟩)
+    (by decide) (by decide) rfl rfl (by decide) (by decide) (fun h => absurd h (by decide)) (by decide) (by decide)
+    (fun h => by cases h)
+    exTexBlock _ [9] rfl rfl
+
+open Draco.EbEnc in
+/-- (b) **CTIso as a proposition**: the Boolean checker the op evaluates on every case (`iso-ok`) implies the
+    Prop-level isomorphism `CTIso` (corner map injective into the encoder's table, opposite corners and boundary
+    edges correspond, two decoder corners carry the same vertex exactly when their images do) for tables that fit
+    the `uint32_t` index types and decoder corners that carry valid vertices -/
+theorem eb_ctiso_sound (t : CT) (processed : Array Nat) (numFaces : Nat) (dc2v dopp : Array Nat)
+    (hC : t.numCorners ≤ inv) (hV : t.numVertices ≤ inv) (hdv : ∀ d, d < 3 * numFaces → dc2v[d]! ≠ inv)
+    (h : ctIso t processed numFaces dc2v dopp = true) : CTIso t processed numFaces dc2v dopp :=
+  ctIso_sound t processed numFaces dc2v dopp hC hV hdv h
+
+open Draco.EbEnc in
+set_option maxRecDepth 8000 in
+/-- non-vacuity: two triangles sharing an edge, faces visited in the order 1, 0, the decoder's vertices renamed -/
+example : CTIso ⟨#[0, 1, 2, 2, 1, 3], #[5, inv, inv, inv, inv, 0], #[0, 1, 2, 5], 0, 0⟩ #[3, 1] 2
+    #[10, 11, 12, 11, 10, 13] #[inv, inv, 5, inv, inv, 2] := by
+  apply eb_ctiso_sound
+  · decide
+  · decide
+  · intro d hd
+    have : d = 0 ∨ d = 1 ∨ d = 2 ∨ d = 3 ∨ d = 4 ∨ d = 5 := by omega
+    rcases this with rfl | rfl | rfl | rfl | rfl | rfl <;> decide
+  · simp [ctIso, CT.numCorners, CT.numVertices, Id.run, Std.Legacy.Range.forIn_eq_forIn_range',
+      Std.Legacy.Range.size, List.range'_succ, inv, Eb.nextC, Eb.prevC, bind, pure]
 
 open Draco.EbEnc in
 /-- (c) under CTIso the decoder's corner table has exactly one face per face the encoder processed
